@@ -108,5 +108,15 @@ def execRoot (o : Oracle) (rootTy : String) (fields : List (FInfo × Shape)) : O
   let r := completeFields o rootTy fields []
   (match r.1 with | some fs => .obj fs | none => .null, r.2)
 
+/-- the operation under its own directives: they decide first, at the empty path; only when all of them pass
+    is the root selection set executed (then exactly as `execRoot`) -/
+def execOp (o : Oracle) (rootTy : String) (fields : List (FInfo × Shape)) (opDirs : List String) : Out × St :=
+  match Impl.runDirs o [] opDirs.reverse {} with
+  | (.reached, e) => let r := execRoot o rootTy fields; (r.1, e.append r.2)
+  | (.err m, e) => (.null, e.append (eff [⟨[], m⟩]))
+  | (.block, e) => (.null, e.append (eff [⟨[], Impl.unexpectedNil⟩]))
+  | (.panic m, e) => (.null, e.append (eff [⟨[], "panic escapes the generated code: " ++ m⟩]))
+  | (.missing d, e) => (.null, e.append (eff [] [] 0 ["@" ++ d]))
+
 end Spec
 end GqlgenVerif
